@@ -4,7 +4,7 @@
 (* calls over the alphabet                                                 *)
 (*   start, finish(valid), finish(own side), finish(unknown side),         *)
 (*   finish(reflected), finish(undecodable), finish(identity), serialize,  *)
-(*   restore-and-continue                                                  *)
+(*   restore-and-continue, start with an entropy function that raises      *)
 (* on one instance lineage, including every call that must fail.           *)
 (*  - EMIT = FALSE: no history is kept, the state graph is finite and TLC  *)
 (*    covers histories of unbounded length (MaxRestore bounds the lineage) *)
@@ -20,7 +20,7 @@ VARIABLE hist
 hvars == <<vars, hist>>
 
 Letters == <<"start", "fin_valid", "fin_own", "fin_unknown", "fin_reflect", "fin_undec", "fin_ident",
-             "serialize", "restore">>
+             "serialize", "restore", "start_fail">>
 PeerSide(cls) == IF cls = "A" THEN 66 ELSE IF cls = "B" THEN 65 ELSE 83
 G == ToyGroup
 (* a decodable element encoding that is not the instance's own               *)
@@ -36,6 +36,8 @@ MsgFor(l, s) ==
 Cur == Len(st)
 Call(l) ==
   CASE l = "start"     -> Start(Cur, X)
+    \* start() with an entropy function that raises; on a started instance it raises OnlyCallStartOnce before asking
+    [] l = "start_fail" -> StartFails(Cur) \/ (st[Cur].started /\ Start(Cur, X))
     [] l = "serialize" -> Serialize(Cur) \/ SerializeTooEarly(Cur)
     [] l = "restore"   -> (nrest < MaxRestore /\ PersistAndRevive(Cur)) \/ SerializeTooEarly(Cur)
     [] OTHER           -> Finish(Cur, MsgFor(l, st[Cur]))
